@@ -703,9 +703,10 @@ PROPS = {
     "C04": dict(
         level="proof",
         claim="Deductive proof (Verus, unbounded in T, address, port, paging state) that contention_clocks equals the statement's delay function and that every bus-wait method and both port-cycle halves advance emulated time by exactly the contended/uncontended amount; Kani proves the machine constants and the contended-bank table on the real tables.",
-        note="Assumes: extraction rules; tape/mixer/screen/border calls touch only their own struct; read_io's port-cycle timing is proved on the extracted real function with its extender expression replaced by an assumed-contract call (R-opaque, see C07); composition over an instruction's bus-cycle list is C03's.",
+        note="Assumes: extraction rules; tape/mixer/screen/border calls touch only their own struct; read_io's port-cycle timing is proved on the extracted real function with its extender expression replaced by an assumed-contract call (R-opaque, see C07); composition over an instruction's bus-cycle list: the list itself (kind, address, clocks of every cycle and every single internal T-state of every instruction) is the K-z80 step-equivalence obligation `C03/C04.trace bus cycles`, which this check runs as well (same harnesses as C03; FDCB / pending-prefix classes in C03's thorough tier only).",
         verus=["ctl"],
-        kani=[K_MACHINE],
+        kani=[K_MACHINE,
+              k_z80("K-z80::cycles", ["plain_all", "cbx_all", "ed_all", "dd_all", "fd_all", "ddcb_idx", "halt_stay"] + Z80_INT)],
         explanation="ULA contention: contention_clocks == ula_delay for all T; every wait_* advances total "
                     "time by (contended ? ula_delay : 0) + clk; port cycles realise the four patterns.",
         not_mechanised=["composition 'instruction time = uncontended time + sum of delays' rests on C03's bus-cycle list (each cycle maps to one contracted call)"],
